@@ -124,7 +124,7 @@ def pm(e, ctx: int = 1) -> str:
             s, p = f"#{e['t']} = ({pm(inner, 1)})", 5
         else:
             s, p = f"#{e['t']} = {pm(inner, 5)}", 5
-        return s  # a tagged term is never re-parenthesised (the tag lives on the node itself)
+        p = 3  # a tagged term is a whole term: it needs parentheses under a prefix or postfix operator
     else:
         return pe(e)
     return f"({s})" if p < ctx else s
